@@ -103,6 +103,10 @@ def injections(sch):
         for ci in range(len(rl['cons']) + 1):
             bad_term = {'pat': unknown_pat, 'opts': [{'lit': 'a'}]}
             yield 'constraint-on-unknown-pattern', (ri, ci), mut(cons=rl['cons'][:ci] + [[bad_term]] + rl['cons'][ci:])
+            # the same with a TEMPORARY identifier that occurs nowhere in this rule
+            tmp_unknown = next(t_ for t_ in ('_zz', '_nowhere') if t_ not in own)
+            yield 'constraint-on-unknown-temporary-pattern', (ri, ci), mut(
+                cons=rl['cons'][:ci] + [[{'pat': tmp_unknown, 'opts': [{'lit': 'a'}]}]] + rl['cons'][ci:])
             if victim:
                 yield 'option-unknown-pattern', (ri, ci), mut(cons=rl['cons'][:ci] + [[{'pat': victim, 'opts': [{'pat': unknown_pat}]}]] + rl['cons'][ci:])
                 yield 'fn-arg-unknown-pattern', (ri, ci), mut(cons=rl['cons'][:ci] + [[{'pat': victim, 'opts': [{'fn': '$eq', 'args': [{'pat': unknown_pat}]}]}]] + rl['cons'][ci:])
